@@ -622,8 +622,7 @@ Proof.
   intros _ _. destruct (e_empty e) eqn:Ee.
   - apply hoare_touch; auto. apply okp_good_in; auto.
   - destruct (e_kind e =? 2) eqn:Ek.
-    + destruct dest as [path|]; [|apply hoare_raise].
-      destruct (is_path_valid (pjoin (pparent o) (e_data e)) cwd path); [|apply hoare_raise].
+    + destruct (is_path_valid (pjoin (pparent o) (e_data e)) cwd dest); [|apply hoare_raise].
       eapply hoare_bind; [apply hoare_exists|]. intros ex _.
       eapply hoare_bind.
       { instantiate (1 := fun _ => True). destruct ex; [apply hoare_unlink; auto; apply okp_good_in; auto | apply hoare_ret; exact I]. }
@@ -649,8 +648,8 @@ Proof.
   - apply hoare_ret. exact I.
   - inversion H as [|? ? H1 H2]; subst. simpl in H1.
     eapply hoare_bind.
-    { instantiate (1 := fun _ => True). destruct (e_mtime e =? 0); [apply hoare_ret; exact I|].
-      destruct (e_mtime e =? 1); [|apply hoare_raise]. apply hoare_touch_meta; auto. apply okp_good_in; auto. }
+    { instantiate (1 := fun _ => True). destruct (e_mtime e =? 1); [|apply hoare_ret; exact I].
+      apply hoare_touch_meta; auto. apply okp_good_in; auto. }
     intros _ _. eapply hoare_bind.
     { instantiate (1 := fun _ => True). destruct (e_chmod e); [|apply hoare_ret; exact I].
       apply hoare_touch_meta; auto. apply okp_good_in; auto. }
@@ -878,6 +877,17 @@ Example none_climb_confined :
     [(KChmod, [w_jail; w_dest; [120]]); (KUtime, [w_jail; w_dest; [120]]); (KCreate, [w_jail; w_dest; [120]])].
 Proof. split; vm_compute; reflexivity. Qed.
 
+(* the chain escapes without a destination as well, now that link members are extracted there *)
+Theorem extract_confined_chain_none_refuted :
+  dest_ok w_d None w_d /\ nodd w_d /\ real_dir w_fs w_d /\ no_links_under w_fs w_d /\
+  In (KCreate, [w_jail; [120]]) (s_eff (final_state (extract_fs w_fs w_d None w_chain 0))) /\
+  ~ effs_under w_d (s_eff (final_state (extract_fs w_fs w_d None w_chain 0))).
+Proof.
+  destruct w_hyps as [H1 [H2 H3]]. repeat split; auto.
+  - vm_compute. auto 10.
+  - intro H. apply effs_underb_iff in H. vm_compute in H. discriminate.
+Qed.
+
 Theorem extract_confined_refuted : ~ extract_confined_statement.
 Proof.
   intro H. destruct extract_confined_chain_refuted as [H0 [H1 [H2 [H3 [_ H4]]]]].
@@ -935,11 +945,12 @@ Qed.
 
 Example none_hyps_satisfiable :
   dest_ok w_d None w_d /\ nodd w_d /\ real_dir w_fs w_d /\ links_safe w_fs w_d /\
-  Forall entry_ok [w_file [97; 47; 102]; w_file [46; 47; 98]; w_file [97; 47; 102]] /\
-  length (s_eff (final_state (extract_fs w_fs w_d None [w_file [97; 47; 102]; w_file [46; 47; 98]; w_file [97; 47; 102]] 0))) = 10%nat.
+  Forall entry_ok [w_file [97; 47; 102]; w_link [107] [97]; w_file [107; 47; 103]; w_file [97; 47; 102]] /\
+  length (s_eff (final_state (extract_fs w_fs w_d None [w_file [97; 47; 102]; w_link [107] [97]; w_file [107; 47; 103]; w_file [97; 47; 102]] 0))) = 11%nat.
 Proof.
   split; [reflexivity|]. split; [apply noddb_ok; reflexivity|]. split; [apply real_dirb_ok; reflexivity|].
   split; [apply links_safeb_ok; reflexivity|]. split.
-  - repeat (apply Forall_cons || apply Forall_nil); intros Hk; discriminate.
+  - repeat (apply Forall_cons || apply Forall_nil); intros Hk He; try discriminate.
+    split; [reflexivity | apply noddb_ok; reflexivity].
   - vm_compute. reflexivity.
 Qed.
